@@ -1,4 +1,5 @@
 CONSTANTS
+  MinItems = 0
   NC = 1
   L = 7
   MaxItems = 4
